@@ -451,6 +451,32 @@ def run_c13(chk):
                               "%s\nbefore: %s\nafter:  %s" % (st_, recs[i_ - 1].get("dump", "")[:500], recs[i_].get("dump", "")[:500])))
                 break
     chk.cov["expanded_view_failed_calls"] = xfail
+    # ---- the maps of the document type declaration (DocumentType.entities / notations) are READ-ONLY in DOM Level 1:
+    # setNamedItem / removeNamedItem answer NO_MODIFICATION_ALLOWED_ERR and change nothing; reading them (length, item, getNamedItem,
+    # the Entity / Notation accessors) agrees with itself before and after
+    DTM = ['<!DOCTYPE r [<!NOTATION n PUBLIC "-//N//EN"><!NOTATION m SYSTEM "s"><!ENTITY e "v"><!ENTITY x SYSTEM "x.ent">'
+           '<!ENTITY y PUBLIC "p" "y.ent" NDATA n><!ENTITY z ""><!ATTLIST r a CDATA "d">]><r>&e;</r>',
+           "<!DOCTYPE r><r/>", "<!DOCTYPE r SYSTEM 's.dtd' [<!ENTITY only 'v'>]><r/>", "<r/>"]
+    dops = ["dtm:read", "dtm:esn", "dtm:ern:e", "dtm:nsn", "dtm:nrn:n", "dtm:ern:nosuch", "dtm:nrn:nosuch", "ce:k", "ap:h0:h99", "dtm:read"]
+    dout = lib.run_lines(lib.build_harness(), [lib.req("dom", t, "count(//*)", *dops) for t in DTM], timeout=300, per_line_resume=True)
+    for t, o in zip(DTM, dout):
+        recs = D.split_records(o)
+        reads = [r["status"] for r, op in zip(recs[1:], dops) if op == "dtm:read"]
+        for i_, (r, op) in enumerate(zip(recs[1:], dops), 1):
+            chk.count(["doctype-maps", t] + dops[:i_], nontrivial=True)
+            st_ = r["status"]
+            if op in ("dtm:esn", "dtm:ern:e", "dtm:nsn", "dtm:nrn:n", "dtm:ern:nosuch", "dtm:nrn:nosuch") and st_ not in ("err:nomod", "ok=-"):
+                mfail.append((t, dops, i_ + 1, "a mutator of a read-only map of the document type answers %s, DOM Level 1 specifies "
+                              "NO_MODIFICATION_ALLOWED_ERR" % st_, o[:600]))
+                break
+            if st_ in ("panic", "abort", "timeout") or "BAD(" in st_:
+                mfail.append((t, dops, i_ + 1, "the maps of the document type: " + st_[:300], o[:600]))
+                break
+            if st_.startswith("err") and r.get("dump") != recs[i_ - 1].get("dump"):
+                mfail.append((t, dops, i_ + 1, "a refused call on a map of the document type changed the document", o[:600]))
+                break
+        if len(reads) == 2 and reads[0] != reads[1]:
+            mfail.append((t, dops, len(dops), "the maps of the document type read differently after refused calls", reads[0][:300] + "  /  " + reads[1][:300]))
     chk.cov["foreign_document_calls"] = ncalls
     chk.cov["result_classes"] = dict(sorted(classes.items()))
     chk.cov["rule"] = ("%d histories of up to %d mutator calls with receivers/arguments of every kind and position and name/value strings "
